@@ -124,4 +124,32 @@ CLAIMED = {
              "bufio.Scanner and os.ReadDir behaviour. Two defects found by this check were repaired in /repo; two are "
              "known findings (header-like lines inside raw strings/comments; unused import with zero tests).",
         tech="Lean 4 proof (matcher language, generator structure) + regenerated facts + differential correspondence against the real binary and go/parser"),
+    "C08": dict(
+        text="Machine-checked proofs (Lean 4 kernel) over a model of the header construction whose FFI and builtin-import "
+             "tables are regenerated from goose.go: Require lines contain exactly the non-builtin imports, each once, "
+             "sorted, and depend only on the set of imports (not order or repetition across files); the path mapping "
+             "removes every '.' and '-' and changes nothing else; header/footer follow the FFI; the FFI result is the "
+             "generic one, a single FFI, or a refusal when two are seen. The import-graph walk itself is an executable "
+             "model whose graph-theoretic characterisation is not yet proved: its agreement with goose on direct / "
+             "transitive / hidden-behind-an-FFI / two-FFI shapes is established by kernel-checked evaluations of the shapes "
+             "and by correspondence. Tie: regenerated tables and function texts (rfl) + the REAL goose binary on generated "
+             "modules, judged against an independent reading of the property.",
+        ref="DESIGN.md §6 C08",
+        note="Trusted: packages.Visit visits each package once depth-first; github.com/mit-pdos/gokv is replaced by a local "
+             "stand-in module (not in the module cache). Refusal of two FFIs currently is a panic (exit 2): a C07 matter. "
+             "One defect found by this check was repaired (fix: 7839e52).",
+        tech="Lean 4 proofs (sort/dedup/permutation invariance, path mapping) + regenerated tables + correspondence against the real binary"),
+    "C17": dict(
+        text="Machine-checked proofs (Lean 4 kernel) over the model of translate()'s loop and writeFileIfChanged: exit "
+             "status 0 iff no pattern error and no package error; the files (re)written are exactly those of packages "
+             "that translated (or all, under -ignore-errors) whose existing file differs, at the path derived from the "
+             "import path; identical files are not rewritten; a pattern error writes nothing. Tie: regenerated text of "
+             "cmd/goose and of the loader configuration (rfl) + the REAL binary on generated modules (good/bad/mixed "
+             "packages, build-tag files, pattern kinds, -dir, flags, prior output states incl. three kinds of stale files); "
+             "partial output is compared with goose's own output on the package minus its untranslatable declarations; "
+             "source selection with `go list -tags goose`.",
+        ref="DESIGN.md §6 C17",
+        note="Trusted: per-package translation results are inputs of the model; source selection is tool-chain behaviour "
+             "(partial, oracle = go list); run as root, so an unwritable path is a directory in the file's place.",
+        tech="Lean 4 proof (decision logic) + regenerated facts + correspondence against the real binary with metamorphic oracles"),
 }
